@@ -36,6 +36,7 @@ UNIT = dict(
     'cwsd.steal.oldest': dict(deciding=True, text='try_steal (no interference): false iff empty; otherwise returns the item at top and advances top by one'),
     'cwsd.steal.commit': dict(deciding=True, text='[INT] try_steal returns true only if its CAS moved top from t to t+1, and then the result is the item read for index t, read before the CAS; it never writes bottom'),
     'cwsd.pop.last_item': dict(deciding=True, text='[INT] try_pop: when a single item is left it is returned only if the CAS on top from t to t+1 succeeded; bottom is restored to a value equal to the final top on that path; with more than one item left top is not written'),
+    'cwsd.pop.restores_bottom': dict(deciding=True, text='[INT] a try_pop that loses the race for the last item (CAS on top fails, or top has already passed the decremented bottom) stores bottom = the top value it observed last, which is the bottom it started from: the deque is left empty and canonical (bottom == top), so the next push is not swallowed'),
     'cwsd.sync.seq_cst': dict(deciding=True, text='sync precondition: pop\'s bottom store, pop\'s top load, steal\'s bottom load and steal\'s CAS are seq_cst; push\'s bottom store is release-or-stronger'),
   },
   canaries=['push.full_nogrow', 'push.grew', 'push.plain', 'pop.empty', 'pop.many', 'pop.last', 'steal.empty', 'steal.ok',
